@@ -63,6 +63,12 @@ impl Span {
     #[verifier::external_body]
     pub fn call_site() -> Span { unimplemented!() }
 }
+impl Ident {
+    // syn::ext::IdentExt::unraw
+    #[verifier::external_body]
+    pub fn unraw(&self) -> Ident { unimplemented!() }
+}
+impl<T: ToTok> ToTok for Option<T> { open spec fn tok_uses(&self) -> Set<int> { match self { Some(t) => t.tok_uses(), None => Set::empty() } } }
 // compare_op.rs `struct Template(TokenStream)`: its methods go through replace_tokens (TokenTree iteration,
 // out of the verifier's reach); their dataflow is assumed: the result mentions the template and its arguments.
 #[verifier::external_body]
